@@ -30,6 +30,7 @@ type vfStream struct {
 //	mode 0: nothing fixed
 //	mode 1: version >= 3 header with zero key/values (tensor section and final seeks)
 //	mode 2: version >= 3 header with exactly one key/value whose key is "general.alignment"
+//	mode 7: version >= 3 header, no key/values, exactly three one-dimensional I8 tensors
 //	mode 3..6: as 2 with key "general.architecture", "general.parameter_count", "general.file_type", "general.type"
 func (s *vfStream) vfFocus(p []byte, n int) {
 	if s.mode == 0 {
@@ -43,12 +44,37 @@ func (s *vfStream) vfFocus(p []byte, n int) {
 	case 2: // V3 { NumTensor, NumKV }
 		if n == 16 {
 			want := uint64(0)
-			if s.mode >= 2 {
+			if s.mode >= 2 && s.mode != 7 {
 				want = 1
 			}
 			verifAssume(s.bo.Uint64(p[8:16]) == want)
-			verifAssume(s.bo.Uint64(p[0:8]) <= 1)
+			if s.mode == 7 {
+				verifAssume(s.bo.Uint64(p[0:8]) == 3)
+			} else {
+				verifAssume(s.bo.Uint64(p[0:8]) <= 1)
+			}
 		}
+	}
+	if s.mode == 7 && s.reads >= 3 {
+		// mode 7: exactly three tensor infos, each { name of 1 byte, 1 dimension, kind I8 }: the dimensions
+		// (= sizes in bytes) and recorded offsets stay arbitrary - the running position arithmetic is the subject
+		switch (s.reads - 3) % 6 {
+		case 0: // name length
+			if n == 8 && s.reads < 21 {
+				verifAssume(s.bo.Uint64(p) == 1)
+			}
+		case 2: // number of dimensions
+			if n == 4 {
+				verifAssume(s.bo.Uint32(p) == 1)
+			}
+		case 4: // kind
+			if n == 4 {
+				verifAssume(s.bo.Uint32(p) == 24)
+			}
+		}
+		return
+	}
+	switch s.reads {
 	case 3: // key length
 		if s.mode >= 2 && n == 8 {
 			verifAssume(s.bo.Uint64(p) == uint64(len(vfKeys[s.mode])))
